@@ -23,6 +23,7 @@ from fractions import Fraction
 
 import numpy as np
 
+from .. import findings
 from ..driver import model
 from ..runner import Stream
 
@@ -56,7 +57,7 @@ RULE = ("topk/greedy: 1..12 candidates, all option combinations, losses SquaredE
 F_OKORDER, F_TOPK, F_OKTOPK, F_INIT, F_CONT, F_STEP, F_FINAL, F_OKGREEDY, F_NOWORSE, F_RUN, F_BYID, F_OKMEMBERS, F_ARGSORT = range(2001, 2014)
 
 CAP = 60           # rounds after which the model-driven run is declared "out of fuel"
-WATCHDOG = 2.0     # seconds for one implementation call (a terminating call of <= CAP rounds needs a few 10 ms)
+WATCHDOG = 2.0     # CPU seconds for one implementation call (a terminating call of <= CAP rounds needs a few 10 ms)
 warnings.filterwarnings("ignore")
 
 
@@ -69,26 +70,30 @@ def _raise_timeout(signum, frame):
     raise ImplTimeout()
 
 
-def with_watchdog(fn, seconds=WATCHDOG):
-    """Runs fn() under an interval timer; returns ('ok', value) | ('timeout', None) | ('exc', exception)."""
+def with_watchdog(fn, seconds=WATCHDOG, wall=False):
+    """Runs fn() under an interval timer; returns ('ok', value) | ('timeout', None) | ('exc', exception).
+    The timer counts the CPU time of this process (ITIMER_PROF): a loop that never ends burns CPU, while a loaded
+    machine cannot turn a 20 ms call into a time-out.  wall=True (calls that sleep) uses the wall clock instead.
+    A call that blocks without using CPU is left to the runner's per-case alarm."""
     main = threading.current_thread() is threading.main_thread()
+    which, sig = (signal.ITIMER_REAL, signal.SIGALRM) if wall else (signal.ITIMER_PROF, signal.SIGPROF)
     if main:
-        old = signal.signal(signal.SIGALRM, _raise_timeout)
-        left = signal.alarm(0)
-        signal.setitimer(signal.ITIMER_REAL, seconds, 0.25)  # repeats until cancelled
+        old = signal.signal(sig, _raise_timeout)
+        left = signal.alarm(0) if wall else 0
+        signal.setitimer(which, seconds, 0.25)  # repeats until cancelled
     try:
         try:
             return "ok", fn()
         finally:
             if main:
-                signal.setitimer(signal.ITIMER_REAL, 0)
+                signal.setitimer(which, 0)
     except ImplTimeout:
         return "timeout", None
     except Exception as e:  # reported by the caller with its class
         return "exc", e
     finally:
         if main:
-            signal.signal(signal.SIGALRM, old)
+            signal.signal(sig, old if old is not None else signal.SIG_DFL)
             if left:
                 signal.alarm(left)
 
@@ -128,6 +133,9 @@ class TableLoss:
             return np.array([w[j] if j < len(w) else 0.0])
         key = tuple(Fraction(float(v)).limit_denominator(97) for v in w)
         h = int(hashlib.sha1((repr(key) + self.salt).encode()).hexdigest(), 16)
+        if self.mode.startswith("shash"):  # signed values: a generic loss callable may be negative (e.g. a log-likelihood)
+            v = int(self.mode[5:])
+            return np.array([float(h % v - v // 2)])
         v = int(self.mode[4:])
         return np.array([float(h % v)])
 
@@ -341,12 +349,12 @@ def compare_greedy(m, S, y, preds, o, res, impl_status, impl_out):
     try:
         wi, wscale = to_scale([frac(x) for x in w])
     except NonFinite:
-        return dict(res, ok=False, clause="wf_weights_positive", sig=sig, detail=dict(w=w))
+        return dict(res, ok=False, clause="wf_weights_positive", detail=dict(w=w))
     tol = wscale >> 40
     flags = m.call(F_OKGREEDY, [n, o["k"], o["k_init"], idx if all(i >= 0 for i in idx) else [n], wi, wscale, tol])
     for name, f in zip(["wf_indices", "wf_count", "wf_weights_positive", "wf_weights_sum", "wf_all"], flags):
         if not f or len(w) != len(idx):
-            return dict(res, ok=False, clause=name, sig=sig, detail=dict(idx=idx, w=w, k=o["k"], k_init=o["k_init"], n=n))
+            return dict(res, ok=False, clause=name, detail=dict(idx=idx, w=w, k=o["k"], k_init=o["k_init"], n=n))
     # --- correspondence with the repaired model
     if all(r["status"] == "fuel" for r in runs):
         res["desc"] = res["desc"] + ["inconclusive:model_long_run"]
@@ -365,7 +373,7 @@ def compare_greedy(m, S, y, preds, o, res, impl_status, impl_out):
                 return dict(res, nontrivial=False, desc=res["desc"] + ["skipped:rounding_borderline"])
             r = [r for r in runs if r["status"] == "done"][0]
             fin = m.call(F_FINAL, [n, r["sel"]])
-            return dict(res, ok=False, kind="corr", clause="greedy_selection", sig=sig,
+            return dict(res, ok=False, kind="corr", clause="greedy_selection",
                         detail=dict(impl=[idx, w], model=[[f[0] for f in fin], [f[1] / f[2] for f in fin]], model_sel=r["sel"], order=r["order"]))
     # --- oracle: no worse than the starting ensemble (claimed with early stopping; F20 without)
     try:
@@ -487,7 +495,7 @@ def check_predictor(case):
         ens = EnsemblePredictor(predictors=members, aggregator=MeanAggregator(), evaluator={"method": "thread", "method_kwargs": {"num_workers": n}})
         return ens.predictions_from_predictors(np.zeros((1, 1)), members)
 
-    st, out = with_watchdog(run, seconds=20)
+    st, out = with_watchdog(run, seconds=20, wall=True)
     if st == "timeout":
         return dict(res, ok=False, clause="predictor_total", sig={"error": "nontermination"}, detail="no answer within 20s")
     if st == "exc":
@@ -503,6 +511,33 @@ def check_predictor(case):
     if [p[1] for p in mod] != got:
         return dict(res, ok=False, kind="corr", clause="order_by_id", detail=dict(model=mod, impl=got, completion=completion))
     return res
+
+
+# ------------------------------------------------------------------ search-on-break
+def searching(stream_name, check):
+    """The runner's search-on-break stops at the first oracle failure it meets and, if that one matches an open known
+    finding, drops the correspondence break that started the search.  Open findings of this property are easy to meet
+    (F20, F19c are whole option classes), so in cases produced for the search (marked _search) a failure of a known
+    class is not a failure: the search goes on until it meets an unknown one or reports no-failing-input-found."""
+    def f(case):
+        r = check(case)
+        if isinstance(case, dict) and case.get("_search") and not r["ok"] and r.get("kind") == "oracle":
+            sig = dict(r.get("sig") or {})
+            sig.setdefault("clause", r.get("clause", ""))
+            sig["stream"] = stream_name
+            if findings.match(PROPERTY, sig) is not None:
+                return dict(r, ok=True, nontrivial=False, desc=["search:known_class_skipped"])
+        return r
+    return f
+
+
+def mark_search(gen):
+    def g(rng, tier):
+        for c in gen(rng, tier):
+            if tier == "search":
+                c["_search"] = True
+            yield c
+    return g
 
 
 # ------------------------------------------------------------------ generators
@@ -576,7 +611,7 @@ def gen_case(rng, i, small=False):
     n = rng.choice([1, 2, 2, 3, 3, 4, 4, 5, 6, 8, 10, 12]) if not small else rng.randint(1, 4)
     msamp = rng.randint(1, 5)
     if kind == "table":
-        mode = rng.choice(["hash2", "hash4", "hash16", "hash64", "hash64", "weight_of:%d" % rng.randrange(n)])
+        mode = rng.choice(["hash2", "hash4", "hash16", "hash64", "shash8", "shash64", "weight_of:%d" % rng.randrange(n)])
         case = dict(kind=kind, preds=[0] * n, table=mode, salt=str(rng.randint(0, 10 ** 6)))
     else:
         y, preds = gen_values(rng, kind, n, msamp, rng.choice(STYLES))
@@ -588,7 +623,7 @@ def gen_case(rng, i, small=False):
 
 def gen_greedy(count):
     def gen(rng, tier):
-        k = count if tier != "search" else count
+        k = count if tier != "search" else max(count, 600)
         for i in range(k):
             case, n = gen_case(rng, i, small=(tier == "search"))
             case["opts"] = gen_opts(rng, n, case["kind"], rng.randrange(8))
@@ -688,8 +723,8 @@ def shrink_online(case):
 def streams(tier):
     th = tier == "thorough"
     return [
-        Stream("topk", gen_topk(3000 if th else 300), check_topk, shrink_sel, timeout=60),
-        Stream("greedy", gen_greedy(5000 if th else 400), check_greedy, shrink_sel, timeout=120),
-        Stream("online", gen_online(600 if th else 60), check_online, shrink_online, timeout=240),
+        Stream("topk", mark_search(gen_topk(3000 if th else 300)), searching("topk", check_topk), shrink_sel, timeout=60),
+        Stream("greedy", mark_search(gen_greedy(5000 if th else 400)), searching("greedy", check_greedy), shrink_sel, timeout=120),
+        Stream("online", mark_search(gen_online(600 if th else 60)), searching("online", check_online), shrink_online, timeout=240),
         Stream("predictor_order", gen_predictor(5 if th else 4), check_predictor, None, timeout=60),
     ]
